@@ -389,7 +389,9 @@ class UBXMessage:
         if "payload" in kwargs:
             val = (bitfield >> bfoffset) & ((1 << atts) - 1)
         else:
-            val = kwargs.get(keyr, 0)
+            # reserved bits are not attributes and take no keyword value
+            # (a field of the same name must not leak into them)
+            val = 0 if key[0:8] == "reserved" else kwargs.get(keyr, 0)
             if not 0 <= val < (1 << atts):
                 raise OverflowError(f"Value {val} of bit flag {keyr} exceeds {atts} bit(s)")
             bitfield = bitfield | (val << bfoffset)
